@@ -84,20 +84,29 @@ pub fn cmd_probe(a: &Args) -> i32 {
         }
         "set" => {
             let n = a.u64("n", 5) as usize;
-            let barrier = Arc::new(std::sync::Barrier::new(8));
+            // tight start: every thread spins on a flag so that the calls really overlap
+            let go = Arc::new(std::sync::atomic::AtomicBool::new(false));
+            let ready = Arc::new(std::sync::atomic::AtomicUsize::new(0));
             let mut ths = vec![];
-            for k in 0..8usize {
-                let b = barrier.clone();
+            for k in 0..12usize {
+                let (go, ready) = (go.clone(), ready.clone());
                 ths.push(std::thread::spawn(move || {
-                    b.wait();
+                    ready.fetch_add(1, std::sync::atomic::Ordering::SeqCst);
+                    while !go.load(std::sync::atomic::Ordering::Acquire) {
+                        std::hint::spin_loop();
+                    }
                     (n + k, rsactor::set_default_mailbox_capacity(n + k).is_ok())
                 }));
             }
+            while ready.load(std::sync::atomic::Ordering::SeqCst) < 12 {
+                std::thread::yield_now();
+            }
+            go.store(true, std::sync::atomic::Ordering::Release);
             let res: Vec<(usize, bool)> = ths.into_iter().map(|t| t.join().unwrap()).collect();
             let winners: Vec<usize> = res.iter().filter(|r| r.1).map(|r| r.0).collect();
             obl += 3;
             if winners.len() != 1 {
-                viol.push(format!("{} of 8 racing set_default_mailbox_capacity calls succeeded: {:?}", winners.len(), res));
+                viol.push(format!("{} of 12 racing set_default_mailbox_capacity calls succeeded: {:?}", winners.len(), res));
             }
             if rsactor::set_default_mailbox_capacity(n + 100).is_ok() {
                 viol.push("a later set_default_mailbox_capacity call succeeded although the default was already configured".into());
